@@ -875,6 +875,13 @@ func (fc *FCtx) callByContract(c *FuncContract, fn *types.Func, sig *types.Signa
 		env := &Env{fc: fc, st: st, old: pre, names: post, oldNames: names, pkg: fc.E.pkgOfContract(c), gsuf: gsuf}
 		st.assume(fc.specBool(en.Expr, env))
 	}
+	// `names` clauses: the result of a deterministic function is a function of its inputs; giving that function a name
+	// (an uninterpreted spec function applied to the inputs) is conservative. Assumed here, never checked in the body.
+	for _, en := range c.Names {
+		env := &Env{fc: fc, st: st, old: pre, names: post, oldNames: names, pkg: fc.E.pkgOfContract(c), gsuf: gsuf}
+		st.assume(fc.specBool(en.Expr, env))
+		fc.assumed["result of "+c.Key+" named by an uninterpreted function of its inputs (the function is deterministic): "+en.Src] = true
+	}
 	// ... and still hold afterwards, whatever number of times the callee ran them: the variables they
 	// assign are havocked, then the clauses are assumed
 	for _, li := range lits {
